@@ -44,6 +44,15 @@ pub struct Case {
     pub mode: DiffMode,
 }
 
+/// C05: the implementation's balance minus the sum of the values of the UTXOs the implementation
+/// returned for the same request (`diff=0` is the property); the error text if the balance call failed
+fn sum_diff(balance_obs: &str, utxo_sum: u64) -> String {
+    match balance_obs.strip_prefix("ok ").and_then(|b| b.parse::<i128>().ok()) {
+        Some(b) => format!("diff={}", b - utxo_sum as i128),
+        None => balance_obs.to_string(),
+    }
+}
+
 pub fn sync_alive(case: &mut Case) {
     let hashes = can::with_state(can::state::get_block_hashes);
     case.alive = hashes
@@ -168,7 +177,7 @@ pub fn queries(out: &mut Out, rng: &mut Rng, case: &Case, heavy: bool) {
             );
             out.emit(
                 &format!("c sumat {} x", text),
-                &bal.trim_start_matches("ok ").to_string(),
+                &sum_diff(&bal, p.utxos.iter().map(|u| u.3).sum::<u64>()),
             );
         }
         let maxc = can::with_state(|s| can::unstable_blocks::get_main_chain_length(&s.unstable_blocks)) as u32;
@@ -189,7 +198,7 @@ pub fn queries(out: &mut Out, rng: &mut Rng, case: &Case, heavy: bool) {
             // C05: balance(c) = sum of utxos(c)
             out.emit(
                 &format!("c sumat {} {}", text, cc),
-                &balc.trim_start_matches("ok ").to_string(),
+                &sum_diff(&balc, p.utxos.iter().map(|u| u.3).sum::<u64>()),
             );
         }
         out.count(&format!("q:c={}", if cc == 0 { "0" } else if cc <= maxc { "mid" } else { "toolarge" }));
@@ -546,21 +555,24 @@ pub fn run_depth_bound_case(out: &mut Out, rng: &mut Rng, thorough: bool) {
     let long = if thorough { rng.range(385, 700) } else { rng.range(385, 470) } as usize;
     let n_children = rng.range(2, 3);
     // total accumulated difficulty every child aims at (ties), and its shape
-    let target: u128 = *rng.pick(&[2u128, 3, 1000, 1001]);
+    let target: u128 = *rng.pick(&[3u128, 1000, 1001, 1001]);
     let mut plans: Vec<(bool, bool)> = vec![]; // (has short heavy branch, has long light side chain)
     for i in 0..n_children {
-        plans.push(match (i, rng.below(3)) { (0, _) => (true, true), (_, 0) => (true, false), (_, 1) => (false, true), _ => (true, true) });
+        plans.push(match (i, rng.below(4)) { (0, _) => (true, true), (_, 0) => (false, true), (_, 1) => (true, true), _ => (true, false) });
     }
     let mut firsts = vec![];
     for _ in 0..n_children {
         firsts.push(push(out, &mut case, rng, a0, 1));
     }
+    // the first child's heavy branch has 1-2 blocks; the others as many or more (same total: the
+    // tie is then decided by the number of blocks, then by arrival order)
+    let parts0 = rng.range(1, 2) as u128;
     for (i, (heavy_branch, long_chain)) in plans.iter().enumerate() {
         let first = firsts[i];
         if *heavy_branch {
-            // 1..3 blocks summing to target-1 (exact tie) or off by one
-            let total = if rng.chance(1, 2) { target.saturating_sub(1) } else { target.saturating_sub(1) + rng.range(0, 2) as u128 }.max(1);
-            let parts = rng.range(1, 3) as u128;
+            // blocks summing to target-1 (exact tie, three times out of four) or off by one
+            let total = if rng.chance(3, 4) { target.saturating_sub(1) } else { target.saturating_sub(1) + rng.range(0, 2) as u128 }.max(1);
+            let parts = if i == 0 { parts0 } else { parts0 + rng.below(3) as u128 };
             let mut p = first;
             let mut left = total;
             for j in 0..parts {
@@ -624,7 +636,7 @@ pub fn run(out: &mut Out, ctx: &crate::Ctx) {
             run_slices_case(out, &mut rng);
             continue;
         }
-        if k == 4 && ctx.shard % 4 == 2 || (ctx.thorough && k % 32 == 17) {
+        if k == 4 && ctx.shard % 2 == 0 || (ctx.thorough && k % 32 == 17) {
             run_depth_bound_case(out, &mut rng, ctx.thorough);
             continue;
         }
